@@ -26,7 +26,7 @@ theorem C17_enum (names : List String) (hn : names.Nodup) (k : Nat) (hk : k < na
     enumFrom names names[k] = some k := enum_roundtrip names hn k hk
 
 /-- **dates**, with and without time zone, offset seconds and microseconds: for every date whose fields fit the
-fixed-width form (year ≤ 9999 — the property starts at year 1000, below which glibc's `%Y` is not 4 wide). -/
+fixed-width form (year ≤ 9999; years below 1000 are written zero-padded since the repair recorded in known_findings.json — glibc's `%Y` alone is not 4 wide there). -/
 theorem C17_date (d : DT) (h : d.Fits) : parseDate (fmtDate d) = some d := parseDate_fmtDate d h
 
 /-- **the table of the code as it is now**: no data type with a textual Python type has converters outside the
@@ -40,6 +40,7 @@ def sampledRows : List String := (dataTypeTable.filter (·.status = .sampled)).m
 /-! ### Non-vacuity -/
 example : parseDate (fmtDate ⟨2024, 2, 29, 23, 59, 58, 999999, some ⟨true, 23, 59, 59, 999999⟩⟩)
     = some ⟨2024, 2, 29, 23, 59, 58, 999999, some ⟨true, 23, 59, 59, 999999⟩⟩ := by decide
+example : String.ofList (fmtDate ⟨87, 1, 2, 3, 4, 5, 6, none⟩) = "0087-01-02T03:04:05.000006" := by decide
 example : String.ofList (fmtDate ⟨1000, 1, 2, 3, 4, 5, 6, some ⟨false, 1, 0, 0, 0⟩⟩) = "1000-01-02T03:04:05.000006+0100" := by
   decide
 example : intFrom (intTo (-12345678901234567890123)) = some (-12345678901234567890123) := C17_int _
